@@ -69,7 +69,11 @@ RULE = ("taps: every half-length h=1..56 (all odd orders <= 111) x fractional pa
         "or a DataFrame with selected+unselected+non-numeric columns; wrapper shift classes (generated records of up to ~5200 rows incl. an exactly "
         "sampled polynomial column, 15 sampling rates, both signs): long_rel / long_abs / long_frac / long_int (100..5000 samples, distance to an integer "
         "1e-7..1e-5 relative, 1e-4..1e-2 absolute, generic, none), tiny (1e-9..1e-6), small (1e-6..1e-2), near_int (k +- 1e-10..1e-3), beyond the record; "
-        "loader: 2-3 files with different rates and shifts, rows identified by an untouched index column")
+        "loader: 2-3 files with different rates and shifts, rows identified by an untouched index column; "
+        "long records (size-threshold regions): lengths c-1, c, c+1, c+17, 2c+3 around every block/chunk constant c mined from the current source of "
+        "dsp.py, and always 70 001 / 200 003 / one random length in 66 000..300 000 (intensive / thorough: up to 2^22+7), both paths, orders {1,3,5,31}, "
+        "integer / fractional / negative / longer-than-a-block shifts, drifting / alternating-integer / independent shift vectors, noise / int64 / exact "
+        "integer-polynomial records, every interior sample compared; df_timeshift on frames of 70 001 (and c+17, 200 003) rows")
 
 U = 2.0 ** -53
 HMAX = 56
@@ -856,8 +860,420 @@ def gen_loader_spec(rng, i: int) -> Dict[str, Any]:
     return {"dseed": int(rng.integers(0, 2 ** 31)), "files": files, "start_time": float(rng.choice([0.0, 1.0, 3.0]))}
 
 
+# ---------------------------------------------------------------------------------------------------------------- long records
+# "for all records": a routine that works in blocks / chunks / buffers of c samples (or switches algorithm above c samples) can be right for
+# every record of <= c samples and wrong beyond (wave-5 change C16e: the time-varying path gathers in blocks of 1 << 16 samples and loses the
+# block offset from the second block on).  The constants are read from the CURRENT source (C.mined_sizes) and record lengths just below / at /
+# above each are probed; independent of what the miner sees, a few long records are always run.  Cases are described by a small spec (sizes,
+# seeds, shift parameters) from which record and shifts are rebuilt, so a replay does not store the samples.
+LONG_FILES = ["speckit/dsp.py"]
+LONG_NAMES = ["timeshift", "lagrange_taps", "df_timeshift"]
+LONG_H = [1, 2, 3, 16]                      # orders 1, 3, 5, 31 (the default)
+LONG_ALWAYS = [70_001, 200_003]             # every run; thresholds written in a form the miner does not see
+LONG_MORE = [300_007, 2 ** 19 + 3, 2 ** 20 + 7, 2_100_001, 2 ** 22 + 7]      # intensive / thorough, as far as the size cap allows
+LONG_POW2 = [2 ** k for k in range(12, 23)]
+
+
+def mined_thresholds(nmax: int, keep: int) -> List[int]:
+    """block / chunk / buffer constants of the current source: those inside timeshift / lagrange_taps / df_timeshift first, then the other
+    constants of the file (a module-level BLOCK = ...); >= 48 (shorter records are covered densely by the other streams), c + 1 <= nmax"""
+    try:
+        a = C.mined_sizes(LONG_FILES, names=LONG_NAMES)
+        b = [v for v in C.mined_sizes(LONG_FILES) if v not in a]
+    except Exception:        # noqa: an unreadable source is the translator's business; the always-long records still run
+        return []
+    out = [v for v in sorted(a, reverse=True) if 48 <= v and v + 1 <= nmax][:keep]
+    out += [v for v in sorted(b, reverse=True) if 48 <= v and v + 1 <= nmax][:max(keep - len(out), 1)]
+    return out
+
+
+def long_coef(r, N: int, h: int) -> List[int]:
+    """integer coefficients c0..c_deg (deg <= min(2h-1, 3)) of p(m), m = n - N//2, such that every sample |p(m)| < 2^52: the record is exact"""
+    M = N // 2 + 2
+    for deg in range(min(2 * h - 1, 3), 0, -1):
+        coef = [int(r.integers(-10 ** 6, 10 ** 6 + 1)), int(r.integers(-1000, 1001)), int(r.integers(-5, 6)), int(r.choice([-1, 1]))][:deg + 1]
+        if coef[-1] == 0:
+            coef[-1] = 1
+        if sum(abs(cv) * M ** k for k, cv in enumerate(coef)) < 2 ** 52:
+            return coef
+    return [3, 1]
+
+
+def long_data(spec: Dict[str, Any]):
+    """record of a long case, rebuilt from the spec: 'noise' (normal + 0.5), 'int' (int64 in -50..50), 'ipoly' (integer polynomial in n - N//2, exact)"""
+    N = int(spec["N"])
+    r = np.random.default_rng(int(spec["dseed"]))
+    kind = spec.get("data", "noise")
+    if kind == "int":
+        return r.integers(-50, 51, N).astype(np.int64)
+    if kind == "ipoly":
+        m = np.arange(N, dtype=np.int64) - N // 2
+        v = np.zeros(N, dtype=np.int64)
+        for cv in reversed([int(cv) for cv in spec["coef"]]):
+            v = v * m + cv
+        if int(np.abs(v).max()) >= 2 ** 53:
+            raise RuntimeError("C16 oracle: integer polynomial record not exactly representable")
+        return v.astype(np.float64)
+    return r.standard_normal(N) + 0.5
+
+
+def long_shifts(spec: Dict[str, Any]) -> np.ndarray:
+    """per-sample shift vector of a long case. drift64: slow drift quantised to 1/64 (integers, fractions, both signs; every shift is exact, so is
+    its fractional part); altint: alternating integers k1 / k2; uniform: independent reals in (-5, 5); full: the same shift s at every sample"""
+    N = int(spec["N"])
+    n = np.arange(N)
+    vm = spec["vmode"]
+    if vm == "drift64":
+        return np.round(64.0 * (float(spec["amp"]) * np.sin(n * float(spec["rate"]) + float(spec["phase"])) + float(spec["off"]))) / 64.0
+    if vm == "altint":
+        return np.where(n % 2 == 0, float(spec["k1"]), float(spec["k2"]))
+    if vm == "uniform":
+        return np.random.default_rng(int(spec["dseed"]) + 1).uniform(-5.0, 5.0, N)
+    return np.full(N, float(spec["s"]))
+
+
+def long_positions(N: int, cands: List[int], extra=()) -> np.ndarray:
+    """sample of output positions spread over the WHOLE record: both ends, 48 equally spaced, the last samples, and the neighbours of the first
+    multiples and of the last multiple of every candidate block length (mined constants and powers of two)"""
+    pos = {0, 1, 2, N - 1, N - 2, N - 3}
+    pos.update((j * (N - 1)) // 47 for j in range(48))
+    pos.update(N - 1 - 7 * j for j in range(10))
+    for c in cands:
+        if c < 2 or c >= N:
+            continue
+        last = (N - 1) // c
+        for mlt in sorted({1, 2, 3, last}):
+            for dl in (-2, -1, 0, 1, 2):
+                pos.add(mlt * c + dl)
+            pos.add(mlt * c + c // 2)
+    pos.update(int(p) for p in extra)
+    return np.array(sorted(p for p in pos if 0 <= p < N), dtype=np.int64)
+
+
+def stencil_ref(x: np.ndarray, h: int, lo: np.ndarray, t: np.ndarray) -> tuple:
+    """(reference, S, tolerance) of the interpolant for the stencils x[lo .. lo+2h-1] (all inside the record) sharing the exact taps t; same
+    forward bound as interior_ref: tolc(h)*S + DSHIFT*u*max|stencil| + 4u|ref|.  Gathered in chunks of the oracle's own choosing (33 000 rows)."""
+    ar = np.arange(2 * h)
+    at = np.abs(t)
+    ref = np.empty(lo.size)
+    S = np.empty(lo.size)
+    mx = np.empty(lo.size)
+    step = 33_000
+    for a in range(0, lo.size, step):
+        W = x[lo[a:a + step, None] + ar]
+        AW = np.abs(W)
+        ref[a:a + step] = W @ t
+        S[a:a + step] = AW @ at
+        mx[a:a + step] = AW.max(axis=1)
+    return ref, S, tolc(h) * S + DSHIFT * U * mx + 4 * U * np.abs(ref)
+
+
+def long_reference(x: np.ndarray, h: int, sv: np.ndarray, cands: List[int], dseed: int) -> tuple:
+    """positions n (stencil of n + sv[n] inside the record) with reference / S / tolerance of the interpolant.  Shifts that are multiples of 1/64
+    (fractional part exact, <= 64 distinct tap sets): EVERY such position; otherwise a sample of positions spread over the whole record."""
+    N = x.size
+    n = np.arange(N, dtype=np.int64)
+    sif = np.floor(sv)
+    si = sif.astype(np.int64)
+    lo = n + si - (h - 1)
+    inside = (lo >= 0) & (lo + 2 * h - 1 <= N - 1)
+    dyadic = bool(np.all(sv * 64.0 == np.round(sv * 64.0)) and np.all(np.abs(sv) < 2.0 ** 40))
+    if dyadic:
+        pos = n[inside]
+        d = (sv - sif)[pos]              # exact: a multiple of 1/64 in [0, 1)
+        ref = np.empty(pos.size)
+        S = np.empty(pos.size)
+        tol = np.empty(pos.size)
+        for dv in np.unique(d):
+            g = np.nonzero(d == dv)[0]
+            ref[g], S[g], tol[g] = stencil_ref(x, h, lo[pos[g]], exact_taps(h, Fraction(float(dv))))
+        return pos, ref, S, tol
+    rr = np.random.default_rng(int(dseed) + 2)
+    pos = long_positions(N, cands, extra=rr.integers(0, N, 160))
+    pos = pos[inside[pos]]
+    ref = np.empty(pos.size)
+    S = np.empty(pos.size)
+    tol = np.empty(pos.size)
+    groups: Dict[Any, List[int]] = {}
+    for j, p in enumerate(pos):
+        groups.setdefault(split(sv[p])[1], []).append(j)
+    for dq, js in groups.items():
+        g = np.array(js)
+        ref[g], S[g], tol[g] = stencil_ref(x, h, lo[pos[g]], exact_taps(h, dq))
+    return pos, ref, S, tol
+
+
+def check_long(P: C.Part, spec: Dict[str, Any]):
+    """both paths on a LONG record (spec: N, h, path, data kind + seed, shift parameters, cands = candidate block lengths), the predicates of the
+    short streams: interior outputs = the interpolant (exact taps) at every / sampled positions over the whole record, integer shift = displacement
+    with held ends at every sample, zero shift = identity, exact polynomial reproduced at positions spread over the whole record (incl. the last
+    block and both sides of every multiple of a candidate block length), constant path = time-varying path on interior stencils"""
+    dsp = impl()
+    N, h = int(spec["N"]), int(spec["h"])
+    order = 2 * h - 1
+    path = spec["path"]
+    cands = sorted(set(int(c) for c in spec.get("cands", [])) | set(LONG_POW2))
+    rep = dict(spec, kind="long")
+    data = long_data(spec)
+    x = data.astype(np.float64)
+    amax = float(np.abs(x).max())
+    coef = [int(cv) for cv in spec["coef"]] if spec.get("data") == "ipoly" else None
+    P.cases += 1
+    P.hit(f"long_{path}_{spec.get('vmode', spec.get('cls', ''))}")
+    P.hit("long_N<2^16" if N < 2 ** 16 else "long_N<2^18" if N < 2 ** 18 else "long_N<2^20" if N < 2 ** 20 else "long_N>=2^20")
+    where = f"size {N}, order {order}, {spec.get('data', 'noise')} record"
+
+    def run(sh, what):
+        try:
+            o = np.asarray(dsp.timeshift(data, sh, order=order))
+        except Exception as ex:
+            viol(P, f"timeshift with {what} raised {ex!r} ({where})", {"check": "long", "path": path, "raises": True}, rep)
+            return None
+        if o.shape != (N,):
+            viol(P, f"timeshift with {what} returned shape {o.shape} ({where})", {"check": "long", "path": path, "shape": True}, rep)
+            return None
+        return o.astype(np.float64)
+
+    def compare(o, pos, ref, tol, pth, label, sv=None):
+        """o[pos] against ref; one violation with the first wrong sample and the number of wrong samples"""
+        err = np.abs(o[pos] - ref)
+        bad = np.nonzero(~(err <= tol))[0]
+        if bad.size == 0:
+            P.hit(f"long_{label}_compared", int(pos.size))
+            return True
+        j = int(bad[0])
+        nn = int(pos[j])
+        sh = float(sv[nn]) if sv is not None else float(spec["s"])
+        blk = "; ".join(f"n = {nn // c}*{c}+{nn % c}" for c in cands if c <= nn and (c in spec.get("cands", []) or c in (2 ** 16, 2 ** 20)))[:120]
+        viol(P, f"long record ({where}), {pth} path: out[{nn}] = {float(o[nn])!r} but the degree-{order} interpolant through "
+                f"data[{nn + math.floor(sh) - (h - 1)}..{nn + math.floor(sh) + h}] at {nn}+({sh!r}) is {float(ref[j])!r} (tol {float(tol[j]):.3g}); "
+                f"{bad.size} of {pos.size} compared interior samples wrong, first at n = {nn}, last at n = {int(pos[bad[-1]])}" + (f" [{blk}]" if blk else ""),
+             {"check": "interpolant", "path": pth, "long": True, "integer": bool(sh == math.floor(sh)), "negative": bool(sh < 0)}, dict(rep, n=nn))
+        return False
+
+    def poly_points(o, sv, pth):
+        """the exact integer polynomial is reproduced at n + shift (no Lagrange formula in the reference), on positions spread over the record"""
+        pos = long_positions(N, cands)
+        cnt = 0
+        for nn in pos:
+            nn = int(nn)
+            sh = float(sv[nn]) if sv is not None else float(spec["s"])
+            si_, d_ = split(sh)
+            lo_ = nn + si_ - (h - 1)
+            if lo_ < 0 or lo_ + 2 * h - 1 > N - 1:
+                continue
+            seg = x[lo_:lo_ + 2 * h]
+            t_ = exact_taps(h, d_)
+            tl = tolc(h) * float(np.abs(seg) @ np.abs(t_)) + DSHIFT * U * float(np.abs(seg).max())
+            tq = Fraction(nn - N // 2) + Fraction(sh)
+            ev = Fraction(0)
+            for cv in reversed(coef):
+                ev = ev * tq + cv
+            exp = float(ev)
+            tl += 8 * U * abs(exp)
+            cnt += 1
+            if not abs(o[nn] - exp) <= tl:
+                viol(P, f"long record ({where}), {pth} path: degree-{len(coef) - 1} polynomial not reproduced: out[{nn}] = {float(o[nn])!r}, "
+                        f"p({nn}+({sh!r})) = {exp!r} (tol {tl:.3g})", {"check": "poly", "path": pth, "long": True, "negative": bool(sh < 0)}, dict(rep, n=nn))
+                return False
+        P.hit("long_poly_points", cnt)
+        return True
+
+    if path == "const":
+        s = float(spec["s"])
+        out = run(s, f"constant shift {s!r}")
+        if out is None:
+            return
+        if s == 0.0:
+            ov = run(np.zeros(N), "an all-zero shift vector")
+            if not np.array_equal(out, x) or (ov is not None and not np.array_equal(ov, x)):
+                viol(P, f"zero shift is not the identity on a long record ({where})", {"check": "zero", "long": True}, rep)
+            P.hit("long_zero")
+            return
+        si, d = split(s)
+        n = np.arange(N, dtype=np.int64)
+        if d == 0:
+            exp = x[np.clip(n + si, 0, N - 1)]
+            tol = tolc(h) * amax
+            bad = np.nonzero(~(np.abs(out - exp) <= tol))[0]
+            if bad.size:
+                nn = int(bad[0])
+                wh = "interior" if 0 <= nn + si <= N - 1 else "held end"
+                viol(P, f"long record ({where}): integer shift {si}: out[{nn}] = {float(out[nn])!r} but data[clamp({nn}+{si})] = {float(exp[nn])!r} "
+                        f"({wh}; {bad.size} samples wrong)", {"check": "integer", "where": wh, "long": True}, dict(rep, n=nn))
+                return
+            P.hit("long_integer")
+        r = interior_range(N, h, si)
+        if len(r) == 0:
+            P.hit("long_no_interior")
+            return
+        pos = np.arange(r[0], r[-1] + 1, dtype=np.int64)
+        ref, S, tol = stencil_ref(x, h, pos + si - (h - 1), exact_taps(h, d))
+        if not compare(out, pos, ref, tol, "constant", "const"):
+            return
+        if coef is not None and not poly_points(out, None, "constant"):
+            return
+        ov = run(np.full(N, s), f"a per-sample shift vector (all {s!r})")
+        if ov is None:
+            return
+        P.cases += 1
+        if not compare(ov, pos, ref, tol, "time-varying", "varfull", sv=np.full(N, s)):
+            return
+        dv = np.abs(ov[pos] - out[pos])
+        bad = np.nonzero(~(dv <= 2 * tolc(h) * S))[0]
+        if bad.size:
+            nn = int(pos[bad[0]])
+            viol(P, f"long record ({where}): constant-shift path and time-varying path disagree at interior sample {nn}: {float(out[nn])!r} vs "
+                    f"{float(ov[nn])!r} (shift {s!r}; {bad.size} samples)", {"check": "paths_agree", "long": True}, dict(rep, n=nn))
+            return
+        P.hit("long_paths_agree")
+        if amax > 0:
+            P.nontrivial.add(("long", "const", h, N, s))
+        return
+    sv = long_shifts(spec)
+    out = run(sv, f"a per-sample shift vector ({spec['vmode']}, in [{float(sv.min())!r}, {float(sv.max())!r}])")
+    if out is None:
+        return
+    pos, ref, S, tol = long_reference(x, h, sv, cands, int(spec["dseed"]))
+    if pos.size == 0:
+        P.hit("long_no_interior")
+        return
+    if not compare(out, pos, ref, tol, "time-varying", "var", sv=sv):
+        return
+    if coef is not None and not poly_points(out, sv, "time-varying"):
+        return
+    if amax > 0:
+        P.nontrivial.add(("long", "var", spec["vmode"], h, N, float(sv[N // 2])))
+
+
+def long_specs(rng, level: int) -> List[Dict[str, Any]]:
+    """cases on long records in priority order. level 0: quick tier, 1: quick tier after a broken obligation (intensive), 2: thorough tier.
+    For every size: both paths, orders {1,3,5,31}, integer / fractional / negative constant shifts and genuinely varying shift vectors — the
+    complete cross for the always-long records when intensive / thorough and for every mined constant; a rotating cover in the quick tier."""
+    nmax = [300_010, 2_200_000, 4_200_000][level]
+    nmax_h = {1: nmax, 2: nmax, 3: nmax, 16: [300_010, 1_100_000, 1_100_000][level]}        # memory of the time-varying path: ~3 x N x 2h x 8 bytes
+    mined = mined_thresholds(nmax, keep=[3, 6, 8][level])
+    specs: List[Dict[str, Any]] = []
+
+    def base(N, h, dkind):
+        sp = {"N": int(N), "h": int(h), "dseed": int(rng.integers(0, 2 ** 31)), "data": dkind, "cands": [int(c) for c in mined]}
+        if dkind == "ipoly":
+            sp["coef"] = long_coef(rng, int(N), int(h))
+        return sp
+
+    def shift_of(cls):
+        k = int(rng.integers(0, 5))
+        if cls == "int":
+            return float((k + 1) * (-1 if rng.integers(0, 2) else 1))
+        f = float(rng.uniform(0.05, 0.95))
+        return k + f if cls == "frac" else -(k + f)
+
+    def A(N, h, cls, dkind):          # constant shift + the same shift through the time-varying path + agreement
+        if 4 <= N <= nmax_h[h]:
+            specs.append(dict(base(N, h, dkind), path="const", cls=cls, s=shift_of(cls)))
+
+    def B(N, h, vmode, dkind):        # genuinely varying shifts
+        if 4 <= N <= nmax_h[h]:
+            sp = dict(base(N, h, dkind), path="var", vmode=vmode)
+            if vmode == "drift64":
+                sp.update(amp=float(rng.uniform(1.2, 2.8)), rate=float(rng.uniform(0.005, 0.02)), phase=float(rng.uniform(0, 6.28)), off=float(rng.uniform(-1, 1)))
+            elif vmode == "altint":
+                sp.update(k1=int(rng.integers(1, 5)), k2=-int(rng.integers(1, 5)))
+            specs.append(sp)
+
+    DK = ["noise", "ipoly", "noise", "int", "ipoly"]
+    CL = ["neg", "int", "frac"]
+
+    def cover(N, j):                  # rotating cover: one constant-shift case and two varying cases per size
+        A(N, LONG_H[j % 4], CL[j % 3], DK[j % 5])
+        B(N, LONG_H[(j + 1) % 4], "drift64", DK[(j + 1) % 5])
+        B(N, LONG_H[(j + 3) % 4], ["altint", "uniform"][j % 2], DK[(j + 2) % 5])
+
+    def cross(N, j):                  # every order x {int, frac, neg, varying}
+        for q, h in enumerate(LONG_H):
+            for w, cls in enumerate(CL):
+                A(N, h, cls, DK[(j + q + w) % 5])
+            B(N, h, "drift64", DK[(j + q + 3) % 5])
+        B(N, LONG_H[j % 4], "uniform", "noise")
+        B(N, LONG_H[(j + 1) % 4], "altint", "ipoly")
+
+    always = list(LONG_ALWAYS) + [int(rng.integers(66_000, 300_000))]
+    # 1. the always-long records: rotating cover, plus the default order on both paths
+    for j, N in enumerate(always):
+        cover(N, j + 1)
+    B(always[0], 16, "drift64", "noise")
+    A(always[1], 16, "neg", "ipoly")
+    A(always[1], 1, "int", "noise")
+    # 2. record lengths around every mined constant
+    for q, c in enumerate(mined):
+        for j, N in enumerate((c - 1, c, c + 1, c + 17, 2 * c + 3)):
+            (cross if (level >= 1 or c <= 4096) else cover)(N, q + j)
+    # 3. longer records; shifts longer than a block; zero shift; then the complete cross on the always-long records
+    if level >= 1:
+        more = [v for v in LONG_MORE if v <= nmax]
+        for j, N in enumerate(more):
+            cover(N, j)
+        always += more
+    big = always[1]
+    specs.append(dict(base(big, 3, "noise"), path="const", cls="longshift", s=float(2 ** 16 + 1) + 0.25))
+    specs.append(dict(base(big, 2, "ipoly"), path="const", cls="longshift", s=-float(big // 3) - 0.625))
+    specs.append(dict(base(always[0], 16, "noise"), path="const", cls="zero", s=0.0))
+    if level >= 1:
+        for j, N in enumerate(always):
+            cross(N, j)
+    return specs
+
+
+def long_cost(sp: Dict[str, Any]) -> int:
+    """deterministic work estimate (elements gathered by the time-varying path + by the reference)"""
+    return int(sp["N"]) * (2 * int(sp["h"]) + 6) * (2 if sp["path"] == "const" else 1)
+
+
+def gen_dfframe_spec(rng, N: int, i: int) -> Dict[str, Any]:
+    """(7) on a LONG frame: df_timeshift of a frame of N rows (a wrapper or a constant path that works in chunks), fractional / negative / integer /
+    long delays; the selected columns are compared at EVERY interior row with the order-31 interpolant by check_df"""
+    fs = float(DF_FS[int(rng.integers(0, len(DF_FS)))])
+    k = [int(rng.integers(0, 6)), int(rng.integers(1000, 5000)), int(min(N // 2, 2 ** 16 + 5))][i % 3]
+    shift = [k + float(rng.uniform(0.05, 0.95)), -(k + float(rng.uniform(0.05, 0.95))), float(k + 1), -(k + 0.5)][int(rng.integers(0, 4))]
+    columns = [["p", "a"], ["w", "p", "label"], ["a", "p", "k"], ["p", "w"]][int(rng.integers(0, 4))]
+    return {"N": int(N), "dseed": int(rng.integers(0, 2 ** 31)), "deg": int(rng.integers(0, 4)), "c1n": int(rng.choice([1, -1, 3])), "cls": "long_frame", "fs": fs,
+            "seconds": float(shift / fs), "columns": columns, "inplace": bool(rng.integers(0, 2)), "suffix": [None, "_ts", None][i % 3], "index0": int(rng.choice([0, 0, 5]))}
+
+
+def run_long(P: C.Part, ctx, rng, intensive: bool, stop) -> None:
+    """the long-record stream of the oracle (deterministic work budget; the cases left out are counted)"""
+    level = 2 if ctx.thorough else 1 if intensive else 0
+    budget = [100_000_000, 400_000_000, 1_000_000_000][level] * (2 if (ctx.thorough and intensive) else 1)
+    specs = long_specs(rng, level)
+    skipped = 0
+    for sp in specs:
+        if stop():
+            return
+        cst = long_cost(sp)
+        if cst > budget:
+            skipped += 1
+            continue
+        budget -= cst
+        check_long(P, sp)
+    if skipped:
+        P.hit("long_cases_over_budget", skipped)
+    mined = specs[0]["cands"] if specs else []
+    P.sample({"check": "long", "mined_constants": mined, "cases": len(specs) - skipped, "largest_N": max([sp["N"] for sp in specs] or [0])})
+    # (3) df_timeshift on long frames
+    frames = [LONG_ALWAYS[0]] + [c + 17 for c in mined if 4096 <= c and c + 17 <= 300_000][:1]
+    if level >= 1:
+        frames += [LONG_ALWAYS[1]] + [2 * c + 3 for c in mined if 4096 <= c and 2 * c + 3 <= 600_000][:2]
+    for i, N in enumerate(frames):
+        if stop():
+            return
+        check_df(P, gen_dfframe_spec(rng, N, i))
+
+
 def run_check(P: C.Part, c: Dict[str, Any]):
     k = c.get("kind")
+    if k == "long":
+        check_long(P, {kk: vv for kk, vv in c.items() if kk not in ("kind", "n")})
+        return
     if k == "taps":
         check_taps(P, int(c["h"]), [float(d) for d in c["ds"]])
     elif k == "const":
@@ -910,6 +1326,11 @@ def oracle(ctx, intensive: bool = False, hints=()) -> C.Part:
         run_check(P, c)
         if stop():
             return P
+
+    # long records: lengths around every block / chunk constant of the current source, and always a few long ones (both paths + the wrapper)
+    run_long(P, ctx, rng, intensive, stop)
+    if stop():
+        return P
 
     # (1) taps: every odd order 1..111
     nd = ctx.scale(6, 72) * mult
